@@ -251,12 +251,19 @@ func C07(c *vlib.Ctx) {
 			mb = fmt.Sprintf(" max_body %d\n", maxBody)
 			eff = maxBody
 		}
+		// every third configuration has a depth limit that evicts the oldest message
+		// (far above what this run stores, so nothing accepted is ever evicted for good)
+		limits, depth := "", 0
+		if ci%3 == 1 {
+			depth = 600
+			limits = fmt.Sprintf("queue_limits { max_depth %d\n drop_policy drop_oldest }\n", depth)
+		}
 		cfg := fmt.Sprintf(`ingress { listen 127.0.0.1:0 }
 pull_api { listen 127.0.0.2:0
  grpc_listen 127.0.0.4:0
  auth token raw:tok }
 admin_api { listen 127.0.0.3:0 }
-defaults { egress { https_only off
+%[5]sdefaults { egress { https_only off
  dns_rebind_protection off } }
 /p { queue { backend %[1]s }
 %[2]s pull { path /pp } }
@@ -266,7 +273,7 @@ defaults { egress { https_only off
 /f { queue { backend %[1]s }
 %[2]s auth forward %[4]q { copy_headers "X-User-Id" "X-Org" }
  pull { path /ff } }
-`, backend, mb, sink.URL+"/sink", authMock.URL+"/check")
+`, backend, mb, sink.URL+"/sink", authMock.URL+"/check", limits)
 		a, err := l2.Start(dir, cfg, nil, nil)
 		if err != nil {
 			c.Inconclusive("C07 config did not start: " + err.Error())
@@ -392,6 +399,53 @@ defaults { egress { https_only off
 			}
 			accepted = append(accepted, sent{marker, route, body, want})
 			c.Count("published_items", 1)
+		}
+		// ---- disturbances between acceptance and consumption: operations that are
+		// refused, or that move messages through operator states, must leave payload
+		// and headers of every stored message alone
+		{
+			pubReq := func(items []map[string]any) l2.Resp {
+				req := l2.JSONReq("POST", a.Compiled.AdminAPI.Prefix+"/messages/publish", map[string]any{"items": items}, "")
+				req.Header.Set("X-Hookaido-Audit-Reason", "verif")
+				return l2.Do(a.Admin, req)
+			}
+			var pulls []string
+			for _, sm := range accepted {
+				if sm.Route == "/p" && strings.HasPrefix(sm.Marker, "pub-") { // published items: message id == marker
+					pulls = append(pulls, sm.Marker)
+				}
+			}
+			if depth > 0 {
+				// a batch that cannot fit even if every queued message were evicted
+				var big []map[string]any
+				for k := 0; k < depth+50; k++ {
+					big = append(big, map[string]any{"id": fmt.Sprintf("big-%d-%d", ci, k), "route": "/p", "payload_b64": "eA=="})
+				}
+				if resp := pubReq(big); resp.Status == 200 {
+					viol("oversized_batch_accepted", fmt.Sprintf("a publish batch of %d items was accepted with max_depth %d", len(big), depth), nil, nil)
+				}
+				c.Count("disturbance_refused_oversized_batch", 1)
+			}
+			if len(pulls) > 0 {
+				// duplicate id of a stored message (refused), alone and behind fresh items
+				dup := pulls[r.Intn(len(pulls))]
+				resp := pubReq([]map[string]any{{"id": fmt.Sprintf("fresh-%d", ci), "route": "/p", "payload_b64": "eA=="}, {"id": dup, "route": "/p", "payload_b64": "eA=="}})
+				if resp.Status == 200 {
+					viol("duplicate_publish_accepted", "a publish batch repeating the id of a stored message was accepted", nil, dup)
+				}
+				c.Count("disturbance_refused_duplicate", 1)
+				// operator round trip: cancel and resume a few stored messages
+				var some []string
+				for k := 0; k < minInt(3, len(pulls)); k++ {
+					some = append(some, pulls[r.Intn(len(pulls))])
+				}
+				for _, op := range []string{"cancel", "resume"} {
+					req := l2.JSONReq("POST", a.Compiled.AdminAPI.Prefix+"/messages/"+op, map[string]any{"ids": some}, "")
+					req.Header.Set("X-Hookaido-Audit-Reason", "verif")
+					l2.Do(a.Admin, req)
+				}
+				c.Count("disturbance_cancel_resume", 1)
+			}
 		}
 		byMarker := map[string]sent{}
 		for _, s := range accepted {
